@@ -115,7 +115,7 @@ def run_compile_case(case: dict) -> dict:
                 raw = json.dumps(a)
                 gen_flow.sanitise_dmode(a)
                 from vf import shapes
-                in_domain = raw == json.dumps(a) and not (set(shapes.tags(a)) & {"call", "startjump", "xroutine", "selftarget", "spin", "twoback", "orphancase", "valeq", "casescn"})
+                in_domain = raw == json.dumps(a) and not (set(shapes.tags(a)) & {"call", "entryjumptarget", "xroutine", "selftarget", "spin", "twoback", "orphancase", "valeq", "casescn"})
                 # behaviour is compared where the decompiler itself is in C02's domain without listed findings
                 if in_domain and all(len(r) > 0 for r in a) and gen_flow.well_formed(a) and not out2.lstrip().startswith(decomp.MARKER):
                     c2 = drive.compile_text(out2)
